@@ -5,26 +5,26 @@ import json, sys
 pid = sys.argv[1]
 rnd = sys.argv[2] if len(sys.argv) > 2 else ''
 AVOID = {
- 'C01': ['result channels taken from a sync.Pool', 'read loop reusing the frame buffer'],
- 'C02': ['a typedef-resolution cache keyed by unqualified name', 'WriteBinaryWithContext skipping empty values'],
- 'C03': ['client generator returning early for void methods before the exception checks', 'framed transport subtracting bytes requested instead of bytes read'],
- 'C04': ['off-by-one (>=) in the readPairs length guards', 'a scratch buffer shared through the marshaler singleton'],
- 'C05': ['int32 overflow in the readPairs guards (i+size > end)', 'write mutex leaked on error returns of the unknown-method reply'],
- 'C06': ['dispatch turned back into a blocking send', 'read lock released only on one arm of the select in dispatch'],
- 'C07': ['subscriber factory sharing its channels between transports', 'STOMP loop returning on an empty body'],
- 'C08': ['Go subscriber using snakeToCamel for the scope name', 'Java DELIMITER computed in a package-level variable'],
- 'C09': ['readPairs rejecting an empty last header value', 'Clone renumbering the original context instead of the clone'],
- 'C10': ['enum numbering using > instead of >=', 'anchoring the prefix-variable identifier regexp'],
- 'C11': ['skipping the typedef cycle search for container typedefs', 'testing the New/Args/Result suffix rule on the raw IDL spelling'],
- 'C12': ['WriteByte with its own off-by-one limit check', 'trapError calling the locking SendError'],
- 'C13': ['an IsOpen() guard (lifecycle lock) at the top of Request/Oneway', 'Oneway calling send inline instead of in a goroutine'],
- 'C14': ['trapError calling the locking SendError', 'hoisting the frame-size buffer out of the HTTP handler closure'],
- 'C15': ['building the frame decoder once in the constructor', 'keeping the reopen attempt counter in the monitor runner'],
- 'C16': ['allocating the Results slice once per method', 'SetError ignoring nil'],
- 'C17': ['load/check/store instead of atomic.AddUint64', 'Clone sharing the ephemeral-properties map'],
- 'C18': ['resolving the new type through the old program in checkType', 'folding the added-required-field error into an else-if'],
- 'C19': ['ReferencedIncludes returning in map order', 'relative paths plus sorting the HTML index by file path'],
- 'C20': ['removing conn.Flush between Drain and Barrier', 'returning before wg.Wait when the queue is empty'],
+ 'C01': ['result channels taken from a sync.Pool', 'read loop reusing the frame buffer', 'generic Clone giving the new op id to the original', 'dispatch returning an error for a duplicate response (adapter read loop closes)'],
+ 'C02': ['a typedef-resolution cache keyed by unqualified name', 'WriteBinaryWithContext skipping empty values', 'dropping i8 from a list of scalar type names', 'tracking required fields only for plain structs (not exceptions)'],
+ 'C03': ['client generator returning early for void methods before the exception checks', 'framed transport subtracting bytes requested instead of bytes read', 'unknown-method branch not skipping the arguments', 'sharing the results slice of the reflection invocation handler'],
+ 'C04': ['off-by-one (>=) in the readPairs length guards', 'a scratch buffer shared through the marshaler singleton', 'addHeadersToFrame sizing the frame from the added headers only', 'ReadRequestHeader building its context with NewFContext'],
+ 'C05': ['int32 overflow in the readPairs guards (i+size > end)', 'write mutex leaked on error returns of the unknown-method reply', 'size guard against len(frame) instead of len(frame[4:])', 'NATS subscriber worker returning on a short message'],
+ 'C06': ['dispatch turned back into a blocking send', 'read lock released only on one arm of the select in dispatch', 'dispatch returning an error on the drop branch', 'Unregister returning early with the registry lock held'],
+ 'C07': ['subscriber factory sharing its channels between transports', 'STOMP loop returning on an empty body', 'non-blocking enqueue with drop in the NATS subscriber', 'a reused publish buffer in the scope client'],
+ 'C08': ['Go subscriber using snakeToCamel for the scope name', 'Java DELIMITER computed in a package-level variable', 'Java prefix helper re-joining the prefix with the delimiter', 'Dart forwarded argument list built by prepending'],
+ 'C09': ['readPairs rejecting an empty last header value', 'Clone renumbering the original context instead of the clone', 'marshalHeaders returning a sync.Pool buffer', "Call resetting the response headers of the caller's context"],
+ 'C10': ['enum numbering using > instead of >=', 'anchoring the prefix-variable identifier regexp', 'typedef cycle search without removing the element from the path set', 'single-quoted literals not unquoted'],
+ 'C11': ['skipping the typedef cycle search for container typedefs', 'testing the New/Args/Result suffix rule on the raw IDL spelling', 'addInclude visiting the value type only when there is no key type', 't.ValueType instead of underlyingType.ValueType in generateConstantValue'],
+ 'C12': ['WriteByte with its own off-by-one limit check', 'trapError calling the locking SendError', 'dropping the error of Flush in prepareMessage', 'defer Unregister moved below the size check'],
+ 'C13': ['an IsOpen() guard (lifecycle lock) at the top of Request/Oneway', 'Oneway calling send inline instead of in a goroutine', 'Register moved after PublishRequest', 'flattening the body-read error with %v'],
+ 'C14': ['trapError calling the locking SendError', 'hoisting the frame-size buffer out of the HTTP handler closure', "Process returning the processor function's TException", 'unknown-method reply without the write mutex'],
+ 'C15': ['building the frame decoder once in the constructor', 'keeping the reopen attempt counter in the monitor runner', 'readLoop re-reading f.closeSignal instead of its parameter', 'back-off ceiling tested on the previous wait'],
+ 'C16': ['allocating the Results slice once per method', 'SetError ignoring nil', "GetMiddleware returning the provider's slice", 'AddMiddleware de-duplicating by function pointer'],
+ 'C17': ['load/check/store instead of atomic.AddUint64', 'Clone sharing the ephemeral-properties map', 'Clone copying the struct (and mutex) by value', 'generic Clone copying _opid over the fresh id'],
+ 'C18': ['resolving the new type through the old program in checkType', 'folding the added-required-field error into an else-if', 'return-type comparison guarded by oldMethod.ReturnType != nil', 'warn flag lost in the recursion of checkType'],
+ 'C19': ['ReferencedIncludes returning in map order', 'relative paths plus sorting the HTML index by file path', 'Dart pubspec dependencies visited in map order', 'globals.Reset only on the success path of Compile'],
+ 'C20': ['removing conn.Flush between Drain and Barrier', 'returning before wg.Wait when the queue is empty', 'answering Stop only after wg.Wait', 'Unsubscribe instead of Drain for idle subscriptions'],
 }
 for l in open('/verif/properties.jsonl'):
     p = json.loads(l)
